@@ -414,12 +414,22 @@ class Helpers:
         gfm = method(chk, hm, "_get_feature_matrices")
         self.gfm = gfm
         cds = [n for n in ast.walk(gfm.node) if isinstance(n, ast.FunctionDef) and n.name == "correct_dst"]
-        if len(cds) != 1:
-            raise AnalysisError("HourlyModel._get_feature_matrices no longer defines the nested helper correct_dst")
-        self.cd = cds[0]
-        # the helper must be applied to the feature lists (and to the target lists at fit time) before they become arrays
-        calls = [n for n in ast.walk(gfm.node) if isinstance(n, ast.Call) and isinstance(n.func, ast.Name) and n.func.id == "correct_dst"]
-        self.cd_calls = calls
+        self.cd_takes_indices = False
+        if len(cds) == 1:
+            self.cd = cds[0]
+            # the helper must be applied to the feature lists (and to the target lists at fit time) before they become arrays
+            self.cd_calls = [n for n in ast.walk(gfm.node) if isinstance(n, ast.Call) and isinstance(n.func, ast.Name) and n.func.id == "correct_dst"]
+        else:
+            # the closure was turned into a module-level / static helper taking the indices explicitly: it was inlined into
+            # _get_feature_matrices by the pre-pass and kept aside (engine.inline.REMOVED)
+            cand = [n for n in chk.repo.removed_helpers.get(mod.name, []) if isinstance(n, ast.FunctionDef) and "correct_dst" in n.name
+                    and len(n.args.args) == 2]
+            if len(cand) != 1:
+                raise AnalysisError("HourlyModel._get_feature_matrices: the slot-correction helper (correct_dst) cannot be identified")
+            self.cd = cand[0]
+            self.cd_takes_indices = True
+            # its inlined body unpacks the indices once per application
+            self.cd_calls = [n for n in ast.walk(gfm.node) if isinstance(n, ast.Assign) and isinstance(n.value, ast.Name) and n.value.id == "dst_indices" and isinstance(n.targets[0], ast.Tuple)]
 
     def run(self, frame: AFrame) -> dict:
         """Interpret the three helpers on one abstract frame; returns what happened."""
@@ -441,7 +451,10 @@ class Helpers:
             cenv = Env(genv)
             cenv.set("dst_indices", dst)
             cf = Function(self.cd, cenv, it)
-            cf(agg)
+            if self.cd_takes_indices:
+                cf(agg, dst)
+            else:
+                cf(agg)
             out["slots_per_day"] = [len(day[0]) for day in agg]
             out["agg"] = agg
             out["stage"] = "_transform_dst"
